@@ -37,7 +37,7 @@ template <unsigned N, class Aut> static bool decodeFree(const Aut& aut, SymAut<N
     for (unsigned k = 0; k < 3; ++k) if (k < n) sl.locate(t.GetChildren()[k], hc[k]);
     bool matched = false;
     for (unsigned i = 0; i < out.nrules; ++i) { Rule r = Univ<N>::rule(i);
-      bool m = (t.GetSymbol() == (symName ? symName[r.sym] : r.sym)) & (n == r.rank) & hp[r.parent];
+      bool m = (t.GetSymbol() == (symName ? symName[r.sym] : symnum(r.sym))) & (n == r.rank) & hp[r.parent];
       for (unsigned k = 0; k < r.rank; ++k) m = m & hc[k][r.child[k]];
       out.pres[i] = out.pres[i] | m; matched = matched | m; }
     ok = ok & matched;
